@@ -28,6 +28,35 @@ CHECKS = {
                   "alpha-variants"),
 }
 
+CHECKS["C09"] = dict(
+    text="spec/Deltas.tla is a state machine whose build phase enumerates every "
+         "input (<= N deltas on a universe of occ/virt/general/spin-labelled "
+         "indices x coefficient index sets x Einstein/explicit targets meeting "
+         "the precondition) and whose eval phase transcribes evaluate_deltas; "
+         "TLC checks ValuePreserved/NoInfoLost/TargetsKept on it exhaustively. "
+         "Every generated input is replayed through the real evaluate_deltas and "
+         "the recorded call is judged by TLC against DeltaContract (Val on a "
+         "2+2 spatial x spin model for all target assignments, information "
+         "order, targets kept); plus seeded grammar terms with deltas.",
+    ref="5 C09",
+    technique="TLC model checking of a TLA+ transcription + spec-generated "
+              "inputs replayed into the code + TLA+ trace validation of the "
+              "recorded calls")
+CHECKS["C20"] = dict(
+    text="spec/Unitary.tla enumerates multisets of U factors x remainder index "
+         "sets x target sets, transcribes the pair resolution and is model "
+         "checked (value preserved under an orthogonal matrix over F_P). Every "
+         "generated input goes through the real simplify_unitary with "
+         "evaluate_deltas off/on; TLC judges UnitaryContract: orthogonality "
+         "certificate of the proposed matrix, Val equal on all target "
+         "assignments for 2 orthogonal matrices, untouched when no pair is "
+         "resolvable; plus seeded chains with antisymmetric/symmetric U in "
+         "occ/virt/general spaces.",
+    ref="5 C20",
+    technique="TLC model checking of a TLA+ transcription + spec-generated "
+              "inputs replayed into the code + TLA+ trace validation under an "
+              "orthogonal-matrix model")
+
 NOT_YET = {}
 
 
